@@ -176,3 +176,40 @@ package server
 //@ func (*fsmHandler).sendMessageloop$1
 //@   claims at-call
 //@   at-call table.UpdatePathAggregator2ByteAs( requires called(UpdatePathAttrs2ByteAs)
+
+// =============================================================================================
+// C12 - graceful restart: the per-call parts (DESIGN.md 4 C12; every "exactly when <timer/event order>" clause
+// of the statement is a property of histories and not decided here)
+// =============================================================================================
+//@ props C12
+//@ func (*peer).State
+//@   pure
+//@   spec-only
+//@ func (*peer).isLLGREnabledFamily
+//@   pure
+//@   spec-only
+// from C12: "As the restarting speaker, it withholds its advertisements until ...": the deferral predicate is
+// exactly "established and not locally restarting"
+//@ func needToAdvertise
+//@   requires peer != nil
+//@   claims at-return
+//@   at-return requires notEstablished <==> peer.State() != bgp.BGP_FSM_ESTABLISHED
+//@   at-return requires notEstablished ==> !ret0
+//@   at-return requires localRestarting ==> !ret0
+//@   at-return requires ret0 ==> !notEstablished && !localRestarting && localRestarting == conf.GracefulRestart.State.LocalRestarting
+// from C12: "routes of the families the peer listed in its GR capability stay ... while all its other routes are
+// removed": classifyFamilies splits `all` into the members of `part` and the rest, each family going to exactly
+// one side, in order, nothing lost or invented
+//@ func classifyFamilies
+//@   claims step inv-init inv-keep at-return
+//@   loop 0 invariant len(a) + len(b) == __iter + 1 && __iter + 1 <= len(all)
+//@   loop 0 step !p ==> len(a) == header(len(a)) + 1 && a[len(a)-1] == f && len(b) == header(len(b))
+//@   loop 0 step p ==> len(b) == header(len(b)) + 1 && b[len(b)-1] == f && len(a) == header(len(a))
+//@   at-return requires len(ret0) + len(ret1) == len(all)
+// from C12: LLGR-stale routes are "only advertised to LLGR-capable peers": towards a peer without LLGR for the
+// family such a route becomes a withdrawal (a clone marked withdrawn), never the route itself
+//@ func (*BgpServer).postFilterpath
+//@   requires peer != nil
+//@   claims at-call at-return
+//@   at-call ^path.Clone( requires arg1
+//@   at-return requires path0 != nil && !old(path0.IsWithdraw) && old(!peer.isLLGREnabledFamily(path0.GetFamily()) && path0.IsLLGRStale()) ==> ret0 != path0 && called(Clone)
